@@ -176,9 +176,9 @@ class OraBuilder(SQLBuilder):
                 indent0 = ''
                 x = 't.*'
 
-            if not limit and not offset:
+            if limit is None and not offset:
                 pass
-            elif not offset:
+            elif not offset or limit == 0:
                 result = [ indent0, 'SELECT * FROM (\n' ]
                 builder.indent += 1
                 result.extend(builder._subquery(*sections))
